@@ -397,6 +397,9 @@ pub struct MarketLive<const A: usize, const L: usize> {
     pub tradings: Vec<bool>,
     pub scratch: std::path::PathBuf,
     pub dead: bool,
+    /// compact and pretty text of the market as it stood before the last reload
+    pub last_json: Option<(String, String)>,
+    pub json_done: usize,
 }
 
 #[derive(Clone, Debug)]
@@ -506,6 +509,10 @@ impl<const A: usize, const L: usize> MarketLive<A, L> {
     }
 
     fn reload(&mut self, mode: &str) -> Result<(), String> {
+        self.last_json = match (serde_json::to_string(&self.market), serde_json::to_string_pretty(&self.market)) {
+            (Ok(c), Ok(p)) => Some((c, p)),
+            _ => None,
+        };
         let reloaded: Market<A, L> = match mode {
             "mem" => {
                 let s = serde_json::to_string(&self.market).map_err(|e| e.to_string())?;
@@ -572,7 +579,31 @@ impl<const A: usize, const L: usize> MarketLive<A, L> {
             if !eq { sh = "DIVERGE".into(); }
         }
         let q = match self.queries_ok() { None => "ok".to_string(), Some(n) => format!("BAD:{}", n) };
-        self.obs(&res, &sh, &q)
+        let mut line = self.obs(&res, &sh, &q);
+        if let MOp::Reload(mode) = op {
+            let n_orders: usize = (0..A).map(|a| self.market.get_orders(a).len()).sum();
+            if sh == "ok" && self.json_done < 2 && n_orders <= 60 {
+                if let Some((c, p)) = self.last_json.take() {
+                    self.json_done += 1;
+                    let hexs = |s: &str| -> String { if s.is_empty() { "-".into() } else { s.bytes().map(|b| format!("{:02x}", b)).collect() } };
+                    line.push_str(&format!("\nJ m c {}\nJ m p {}", hexs(&c), hexs(&p)));
+                    let base = if mode == "pretty" { &p } else { &c };
+                    let n = base.len();
+                    let mut x: u64 = (n as u64).wrapping_mul(0x9E3779B97F4A7C15) ^ 0xabcdef;
+                    let mut cuts = vec![0usize, n - 1];
+                    for _ in 0..3 { x ^= x << 13; x ^= x >> 7; x ^= x << 17; cuts.push((x % n as u64) as usize); }
+                    cuts.sort(); cuts.dedup();
+                    for cut in cuts {
+                        let v = &base[..cut];
+                        let verdict = match catch_unwind(AssertUnwindSafe(|| serde_json::from_str::<Market<A, L>>(v))) {
+                            Ok(Ok(_)) => "ok", Ok(Err(_)) => "err", Err(_) => "panic",
+                        };
+                        line.push_str(&format!("\nJ mv cut {} {}", verdict, hexs(v)));
+                    }
+                }
+            }
+        }
+        line
     }
 }
 
@@ -677,7 +708,7 @@ pub fn run_market<const A: usize, const L: usize, W: Write>(h: &MarketHeader, g:
     let ticks: [u32; A] = std::array::from_fn(|i| h.ticks[i]);
     let market = Market::<A, L>::new(h.t0, ticks, h.trading);
     let shadows = h.ticks.iter().map(|t| OrderBook::<L>::new(h.t0, *t, h.trading)).collect();
-    let mut live = MarketLive { market, shadows, trading: h.trading, tradings: vec![h.trading; A], scratch, dead: false };
+    let mut live = MarketLive { market, shadows, trading: h.trading, tradings: vec![h.trading; A], scratch, dead: false, last_json: None, json_done: 0 };
     writeln!(w, "I {}", live.obs("u", "ok", "ok")).unwrap();
     let mut emit = |live: &mut MarketLive<A, L>, op: &MOp, w: &mut W| {
         writeln!(w, "O {}", op.line()).unwrap();
